@@ -642,7 +642,10 @@ func (g *gen) leaf(m *Module, parent *DNode, plain bool) *DNode {
 		n.Stmt.Add(S("mandatory", "true"))
 	}
 	if t.Rare(5) {
-		n.Stmt.Add(S("description", "a leaf; with \"quotes\" and a\nsecond line"))
+		n.Stmt.Add(S("description", []string{"a leaf; with \"quotes\" and a\nsecond line", "Größe in °C — «quoted» + 😀", "+1", "+é", "名前 /* not a comment */ // nor this", "tab\there", "ends with backslash \\"}[t.Draw(7)]))
+	}
+	if t.Rare(8) {
+		n.Stmt.Add(S("units", []string{"°C", "µs", "m/s", "+dBm", "Ω", "+°C", "%"}[t.Draw(7)]))
 	}
 	if t.Rare(6) {
 		n.Stmt.Add(S("status", []string{"current", "deprecated", "obsolete"}[t.Draw(3)]))
